@@ -90,8 +90,12 @@ def material_strategy(tiers=("iso", "diag"), lossy=False, magnetic=True, lo=1.0,
         if lossy:
             for key in ("sigE", "sigH"):
                 if draw(st.booleans()):
-                    m[key] = draw(st.sampled_from([0.0, 1e3, 1e4, 5e4])) if key == "sigE" else draw(
+                    v = draw(st.sampled_from([0.0, 1e3, 1e4, 5e4])) if key == "sigE" else draw(
                         st.sampled_from([0.0, 1e8, 1e9, 5e9]))
+                    # conductivities may be diagonally anisotropic independently of the permittivity's tier
+                    if v and any(t in tiers for t in ("diag", "full")) and draw(st.integers(0, 2)) == 0:
+                        v = [v, 0.5 * v, 2.0 * v]
+                    m[key] = v
         return m
 
     return _m()
